@@ -320,7 +320,7 @@ def monitorLease (sc : LScn) (entries : List String) : List (String × String) :
   return m.viols
 
 def checkLeaseMon (inp obs : KV) : Option String × List (String × String) :=
-  if obs.has "crash" then (some ("fields=crash " ++ obs.get "crash"), [("C20", "crash:" ++ obs.get "crash")]) else
+  if obs.has "crash" then (some ("fields=crash " ++ obs.get "crash"), [("C20", "crash:" ++ obs.get "crash"), ("C17", "shared-resource-panics:" ++ obs.get "crash")]) else
   let sc := parseLScn inp
   if obs.has "hang" then
     -- the virtual clock stalled: some goroutine waits on a mutex held across a wait (synctest cannot advance time)
